@@ -79,6 +79,43 @@ def run_episode(tracer, d, cfg, policy, max_steps=400, env_hook=None, seed=None)
     return env, end, actions, et
 
 
+def rerun_episode(env, policy, max_steps=400, env_hook=None, seed=None):
+    """Another episode on the SAME environment object: reset, then drive it. Returns (end, actions, env_trace)."""
+    actions, et = [], []
+    try:
+        env.reset(seed=seed) if seed is not None else env.reset()
+    except jsl.StepBudgetExceeded:
+        return "budget", actions, et
+    except trace.ImplRaised as e:
+        return "raise:" + e.cls, actions, et
+    except Exception as e:  # noqa
+        return "raise:" + type(e).__name__, actions, et
+    if env_hook:
+        env_hook(env, None)
+    end = "maxsteps"
+    for _ in range(max_steps):
+        a = policy(env)
+        actions.append(a)
+        try:
+            obs, rew, term, trunc, info = env.step(a)
+        except jsl.StepBudgetExceeded:
+            end = "budget"
+            break
+        except trace.ImplRaised as e:
+            end = "raise:" + e.cls
+            break
+        except Exception as e:  # noqa
+            end = "raise:" + type(e).__name__
+            break
+        et.append((a, rew, term, trunc, info))
+        if env_hook:
+            env_hook(env, (a, obs, rew, term, trunc, info))
+        if term or trunc:
+            end = "terminated" if term else "truncated"
+            break
+    return end, actions, et
+
+
 def run_batch(seed, n, profiles=("mixed",), ps=(0.1, 0.5, 0.9, 1.0), tracer=None, custom_buffers_p=0.0,
               trunc_p=0.3, env_hook=None, max_steps=400, gen_kw=None, phased_p=0.0, early_p=0.6, big_p=0.0):
     rng = random.Random(seed)
